@@ -256,8 +256,8 @@ func c38Option(rt *rapid.T) (string, string) {
 		cls := "quoted"
 		for i := 0; i < n; i++ {
 			p := pick(rt, "piece", c38ValPieces)
-			if p == `\` && i == n-1 {
-				p = "z" // a lone backslash right before the closing quote would escape it
+			if strings.HasSuffix(p, `\`) && i == n-1 {
+				p += "z" // a backslash right before the closing quote would escape it (for sshd too)
 			}
 			if strings.ContainsAny(p, " \t") {
 				cls = "quoted+blank"
@@ -313,7 +313,7 @@ func c38KeyLine(rt *rapid.T, k fkey, allowDamage bool) c38Line {
 		if rapid.IntRange(0, 19).Draw(rt, "emptyitem") == 0 {
 			// an empty item (",,", leading or trailing comma): sshd refuses such a
 			// list; the property only constrains the split of the items present
-			field = pick(rt, "emptyform", []string{"," + field, field + ",", strings.Replace(field, ",", ",,", 1)})
+			field = pick(rt, "emptyform", []string{"," + field, field + ",", items[0] + ",," + strings.Join(items[1:], ",")})
 			l.class = append(l.class, "opt:empty-item")
 		}
 		sb.WriteString(field)
@@ -529,7 +529,8 @@ func c38KnownHosts(rt *rapid.T, p *c38Pools) (bool, string, []string, map[string
 	declared := k.typ
 	damage := pick(rt, "damage", []string{"none", "none", "none", "none", "type-other", "type-certswap", "b64-char", "no-blob", "too-many-fields", "no-type"})
 	blob64 := base64.StdEncoding.EncodeToString(k.blob)
-	ncomment := rapid.IntRange(0, 1).Draw(rt, "ncomment")
+	ncomment := rapid.IntRange(0, 2).Draw(rt, "ncomment")
+	tooMany := false
 	expectErr := false
 	switch damage {
 	case "type-other":
@@ -556,7 +557,7 @@ func c38KnownHosts(rt *rapid.T, p *c38Pools) (bool, string, []string, map[string
 		ncomment = 0
 		expectErr = true
 	case "too-many-fields":
-		ncomment = 3
+		tooMany = true
 		expectErr = true
 	case "no-type":
 		declared = ""
@@ -574,14 +575,16 @@ func c38KnownHosts(rt *rapid.T, p *c38Pools) (bool, string, []string, map[string
 	if blob64 != "" {
 		fields = append(fields, blob64)
 	}
+	// sshd(8): "marker (optional), hostnames, keytype, base64-encoded key,
+	// comment"; the package accepts 3..5 blank-separated fields per entry
+	if room := 5 - len(fields); tooMany {
+		ncomment = room + 1
+	} else if ncomment > room {
+		ncomment = room
+	}
 	var cwords []string
 	for i := 0; i < ncomment; i++ {
 		cwords = append(cwords, pick(rt, "cword", []string{"c", "user@host", "#x", "ü"}))
-	}
-	// sshd(8): "marker (optional), hostnames, keytype, base64-encoded key,
-	// comment"; the package documents 3..5 blank-separated fields
-	if marker != "" && len(cwords) > 0 && len(fields)+len(cwords) > 5 {
-		cwords = cwords[:0]
 	}
 	fields = append(fields, cwords...)
 	var line strings.Builder
